@@ -96,7 +96,7 @@ func (e *scenarioEnv) listTree() []interface{} {
 			ents = append(ents, ent{vp, []interface{}{hx(vp), "d"}})
 		default:
 			base := filepath.Base(p)
-			if strings.HasPrefix(base, "layerconfig") || strings.HasPrefix(base, "data") {
+			if strings.HasPrefix(base, "layerconfig") || strings.HasPrefix(base, "data") || strings.HasSuffix(base, ".skel") {
 				b, _ := ioutil.ReadFile(p)
 				ents = append(ents, ent{vp, []interface{}{hx(vp), "f", hx(e.unvirtAll(string(b)))}})
 			} else {
@@ -239,6 +239,23 @@ func (e *scenarioEnv) runStep(step map[string]interface{}) interface{} {
 		}
 	}()
 	fs.VerifHook = nil
+	if str(step["cmd"]) == "rename" {
+		// Go map iteration decides the order in which children are rewritten; hand the
+		// observed order to the model (the theorems quantify over every order)
+		order := []string{}
+		for _, o := range oplog {
+			e := o.([]interface{})
+			if e[0] == "open" {
+				p := unhx(e[1])
+				if strings.HasSuffix(p, "/layerconfig.new") {
+					order = append(order, filepath.Base(filepath.Dir(p)))
+				}
+			}
+		}
+		if len(order) > 0 {
+			step["childOrder"] = hxs(order)
+		}
+	}
 	sys := []interface{}{}
 	for _, s := range e.kernel.syslog {
 		row := make([]interface{}, len(s))
